@@ -20,6 +20,12 @@
 //     comment meta data) equal those of the same text with every comment
 //     replaced by blanks of equal shape; removing comments which contain no
 //     newline does not change the tree (kinds, values, lines).
+//
+// The end-of-input token has no first character: for it (and for "unexpected
+// end" parser errors) only a weak form is demanded, see eofPlaceOK. A panic of
+// the code under test is counted as excluded (totality is C06/C07). Open
+// findings C18-line-comment-column / C18-eof-position (ids in pieces_test.go)
+// are kept out of the explored space while known_findings.json lists them.
 package c18
 
 import (
@@ -102,14 +108,22 @@ func tokDesc(t parser.LexToken) string {
 	return fmt.Sprintf("{id:%d val:%q Pos:%d Lline:%d Lpos:%d}", t.ID, t.Val, t.Pos, t.Lline, t.Lpos)
 }
 
-func lex(src string) (toks []parser.LexToken, f *hx.Failure) {
-	f = hx.Guard(func() { toks = parser.LexToList("c18", src) })
-	return
+// A panic of the code under test is a totality question (C06/C07), not a
+// position question: the case is discarded and counted, never reported here.
+func discardPanic(f *hx.Failure) bool {
+	if f == nil {
+		return false
+	}
+	hx.E.Exclude("unspecified.panic(not a position question) " + f.Sig)
+	return true
 }
 
-func parse(src string) (ast *parser.ASTNode, err error, f *hx.Failure) {
-	f = hx.Guard(func() { ast, err = parser.Parse("c18", src) })
-	return
+func lex(src string) (toks []parser.LexToken, panicked bool) {
+	return toks, discardPanic(hx.Guard(func() { toks = parser.LexToList("c18", src) }))
+}
+
+func parse(src string) (ast *parser.ASTNode, err error, panicked bool) {
+	return ast, err, discardPanic(hx.Guard(func() { ast, err = parser.Parse("c18", src) }))
 }
 
 // checkTokens is oracle 1.
@@ -164,10 +178,12 @@ func checkTokens(c Case, l *layout, toks []parser.LexToken) *hx.Failure {
 		if cls != want {
 			return hx.Failf("token-sequence:kind", "source %s: piece %q (%s) at offset %d was lexed as %s", clip(l.src), p.T, p.K, off, tokDesc(t))
 		}
-		if p.K == kBAD && badKind(p.T) == "unclosed-bc" {
-			// the text does not say whether an unterminated comment starts at '/' or after "/*"
-			if t.Pos != off && t.Pos != off+2 {
-				return hx.Failf("token-pos:"+p.K, "source %s: error token for %q at offset %d says %s", clip(l.src), p.T, off, tokDesc(t))
+		if p.K == kBAD {
+			// the error token stands for the whole unlexable run; the text does not say which of its
+			// bytes counts as "first" (e.g. '/' or what follows "/*"): any offset inside the run is
+			// accepted, line and column must be the true ones of the offset the token names
+			if t.Pos < off || t.Pos > off+len(p.T) {
+				return hx.Failf("token-pos:nl-in-"+nlContext(c.Pieces, l, off), "source %s: error token for %q at offsets %d..%d says %s", clip(l.src), p.T, off, off+len(p.T), tokDesc(t))
 			}
 			if what, ok := selfConsistent(t, l.lineAt, l.colAt); !ok {
 				return hx.Failf("token-"+what+":nl-in-"+nlContext(c.Pieces, l, t.Pos), "source %s: error token %s: offset %d is line %d column %d", clip(l.src), tokDesc(t), t.Pos, l.lineAt[t.Pos], l.colAt[t.Pos])
@@ -230,9 +246,9 @@ func sameTok(a, b parser.LexToken) bool {
 
 // checkBlankTokens is oracle 3 on the token level.
 func checkBlankTokens(c Case, l *layout, toks []parser.LexToken, blank string) *hx.Failure {
-	btoks, f := lex(blank)
-	if f != nil {
-		return f
+	btoks, panicked := lex(blank)
+	if panicked {
+		return nil
 	}
 	var a, b []parser.LexToken
 	for _, t := range toks {
@@ -452,9 +468,9 @@ func runCase(c Case) *hx.Failure {
 	}
 
 	// oracle 1
-	toks, f := lex(l.src)
-	if f != nil {
-		return f
+	toks, panicked := lex(l.src)
+	if panicked {
+		return nil
 	}
 	if f := checkTokens(c, l, toks); f != nil {
 		return f
@@ -471,15 +487,15 @@ func runCase(c Case) *hx.Failure {
 }
 
 func runProg(c Case, l *layout, blank string) *hx.Failure {
-	a1, e1, f := parse(l.src)
-	if f != nil {
-		return f
+	a1, e1, panicked := parse(l.src)
+	if panicked {
+		return nil
 	}
 	// oracle 3, tree level: comments replaced by blanks of equal shape
 	if blank != l.src {
-		a2, e2, f := parse(blank)
-		if f != nil {
-			return f
+		a2, e2, panicked := parse(blank)
+		if panicked {
+			return nil
 		}
 		if d := cmpParse(a1, e1, a2, e2, true); d != "" {
 			return hx.Failf("blanking-changes-tree", "source %s: tree differs from the tree of the same text with every comment replaced by blanks of equal shape: %s", clip(l.src), d)
@@ -491,9 +507,9 @@ func runProg(c Case, l *layout, blank string) *hx.Failure {
 		if !ok {
 			hx.E.Class("metamorphic.strip-skipped(comment-was-only-separator)", 1)
 		} else {
-			a3, e3, f := parse(assemble(stripped).src)
-			if f != nil {
-				return f
+			a3, e3, panicked := parse(assemble(stripped).src)
+			if panicked {
+				return nil
 			}
 			if d := cmpParse(a1, e1, a3, e3, false); d != "" {
 				return hx.Failf("flat-comment-changes-tree", "source %s: tree (kinds, values, lines) differs from the tree of the same text without its %d newline-free comments: %s", clip(l.src), n, d)
@@ -533,8 +549,11 @@ func runProg(c Case, l *layout, blank string) *hx.Failure {
 			}
 		}
 		okPos := pe.Line == l.lineAt[off] && pe.Pos == l.colAt[off]
-		if !okPos && p.K == kBAD && badKind(p.T) == "unclosed-bc" {
-			okPos = pe.Line == l.lineAt[off+2] && pe.Pos == l.colAt[off+2]
+		if !okPos && p.K == kBAD {
+			// any byte of the unlexable run (see checkTokens)
+			for o := off; o <= off+len(p.T) && !okPos; o++ {
+				okPos = pe.Line == l.lineAt[o] && pe.Pos == l.colAt[o]
+			}
 		}
 		if !okPos {
 			return hx.Failf("parser-error-position:"+c.Plant+":nl-in-"+nlContext(c.Pieces, l, off), "source %s: planted %q at offset %d = line %d, column %d; parser reports %q", clip(l.src), p.T, off, l.lineAt[off], l.colAt[off], e1.Error())
@@ -582,8 +601,8 @@ func runEval(c Case, l *layout) *hx.Failure {
 			return
 		}
 		_, err = ast.Runtime.Eval(scope.NewScope(scope.GlobalScope), make(map[string]interface{}), erp.NewThreadID())
-	}); f != nil {
-		return f
+	}); discardPanic(f) {
+		return nil
 	}
 	var re *util.RuntimeError
 	if err == nil || !errors.As(err, &re) {
@@ -625,11 +644,11 @@ func runEval(c Case, l *layout) *hx.Failure {
 func runRaw(c Case) *hx.Failure {
 	src := string(c.Raw)
 	lineAt, colAt := positions(src)
-	toks, f := lex(src)
-	if f != nil {
-		return f
-	}
 	multiline := strings.IndexByte(src, '\n') >= 0
+	toks, panicked := lex(src)
+	if panicked {
+		return nil
+	}
 	// offsets of the newlines which end a # comment (by the lexer's own account; used to name the failure class only)
 	lcEnd := map[int]bool{}
 	for _, t := range toks {
